@@ -58,7 +58,7 @@ WInit(root) == [work |-> << <<"visit", root>> >>, visited |-> {}, out |-> <<>>, 
                 log |-> <<>>, warns |-> <<>>]
 
 Pop(s) == SubSeq(s, 1, Len(s) - 1)
-RevItems(refs) == [j \in 1..Len(refs) |-> <<"visit", refs[Len(refs) + 1 - j]>>]
+RevItems(refs) == [j \in 1..Len(refs) |-> <<"visit", refs[Len(refs) + 1 - j]>>] \o <<>>
 
 WStep(graph, fault, s) ==
   LET top == s.work[Len(s.work)]
